@@ -449,7 +449,8 @@ fn lsp_range_problems(w: &World, spelling: usize) -> Vec<(String, String)> {
     let mut steps: Vec<(usize, Value)> = docs.iter().enumerate().map(|(i, d)| (i, did_open(&d.0, 1, &d.2))).collect();
     if spelling == 5 {
         // the document was open before with another text and a higher version (version numbers are the client's)
-        steps = vec![(0, did_open(&docs[0].0, 7, &w.text())), (0, did_change(&docs[0].0, 2, &[docs[0].2.as_str()]))];
+        let before = w.text();
+        steps = vec![(0, did_open(&docs[0].0, 7, &before)), (0, did_change(&docs[0].0, 9, &[before.as_str()])), (0, did_open(&docs[0].0, 1, &before)), (0, did_change(&docs[0].0, 2, &[docs[0].2.as_str()]))];
     }
     if docs.len() > 1 {
         steps.push((0, did_change(&docs[0].0, 2, &[docs[0].2.as_str()])));
